@@ -453,18 +453,24 @@ fn builder(cfg: &Cfg, roots: &[PathBuf], threads: usize) -> WalkBuilder {
     b
 }
 
-fn real_serial(cfg: &Cfg, roots: &[PathBuf]) -> Vec<(char, PathBuf)> {
+/// A traversal that reports more than `limit` items is cut off (a walker that no longer detects link cycles
+/// would otherwise run until path names get too long); the overrun shows up as a difference to the listing.
+fn real_serial(cfg: &Cfg, roots: &[PathBuf], limit: usize) -> Vec<(char, PathBuf)> {
     let mut out = vec![];
     for r in builder(cfg, roots, 1).build() {
         match r {
             Ok(e) => out.push(('e', e.path().to_path_buf())),
             Err(err) => out.push(classify(&err, None)),
         }
+        if out.len() > limit {
+            out.push(('?', PathBuf::from("traversal-does-not-end")));
+            break;
+        }
     }
     out
 }
 
-fn real_parallel(cfg: &Cfg, roots: &[PathBuf], threads: usize) -> Vec<(char, PathBuf)> {
+fn real_parallel(cfg: &Cfg, roots: &[PathBuf], threads: usize, limit: usize) -> Vec<(char, PathBuf)> {
     let out = Arc::new(Mutex::new(vec![]));
     let o2 = out.clone();
     builder(cfg, roots, threads).build_parallel().run(|| {
@@ -474,8 +480,14 @@ fn real_parallel(cfg: &Cfg, roots: &[PathBuf], threads: usize) -> Vec<(char, Pat
                 Ok(e) => ('e', e.path().to_path_buf()),
                 Err(err) => classify(&err, None),
             };
-            o.lock().unwrap().push(item);
-            WalkState::Continue
+            let mut g = o.lock().unwrap();
+            g.push(item);
+            if g.len() > limit {
+                g.push(('?', PathBuf::from("traversal-does-not-end")));
+                WalkState::Quit
+            } else {
+                WalkState::Continue
+            }
         })
     });
     let v = out.lock().unwrap().clone();
@@ -571,12 +583,13 @@ fn run_case(c: &Case, text: &str, env: &mut Env, drv: &mut Driver, rep: &mut Rep
         })
     );
     // the roots are given relative to the main area: paths start with the root's name
-    let ser = canon(&real_serial(&c.cfg, &roots), &main, names);
-    let par = canon(&real_parallel(&c.cfg, &roots, c.threads), &main, names);
     let mut l = Lister { cfg: &c.cfg, out: vec![] };
     for r in &roots {
         l.root(r);
     }
+    let limit = 20 * l.out.len() + 1000;
+    let ser = canon(&real_serial(&c.cfg, &roots, limit), &main, names);
+    let par = canon(&real_parallel(&c.cfg, &roots, c.threads, limit), &main, names);
     let lst = canon(&l.out, &main, names);
     let ask = |drv: &mut Driver, which: &str| -> Vec<String> {
         let r = drv.ask(&format!(
